@@ -163,6 +163,27 @@ def run(prop: str, tier: str) -> int:
                       {"s": "compile"}, {"s": "commit", "obj": k_ + 1, "vals": [v_]}]
             h += [{"s": "meas", "q": "Q1", "inplace": True, "into": fut("A1", c(0))}, {"s": "flush"}, {"s": "read", "loc": {"k": "arr", "a": "A1"}}]
             cases.append({"history": h, "meas": [1, 0]})
+        # one template name used by several operands of one compiled subroutine (X^m Z^m corrections), next to another name
+        for v1, v2 in ((3, 5), (0, 1), (16, 0)):
+            cases.append({"history": [{"s": "qubit", "h": "Q1"}, {"s": "qubit", "h": "Q2"}, {"s": "rot", "g": "rot_x", "q": "Q1", "n": "t1", "d": 4},
+                                      {"s": "rot", "g": "rot_z", "q": "Q2", "n": "t1", "d": 4}, {"s": "rot", "g": "rot_y", "q": "Q1", "n": "t2", "d": 1},
+                                      {"s": "rot", "g": "rot_x", "q": "Q2", "n": "t1", "d": 0},
+                                      {"s": "meas", "q": "Q1", "inplace": False, "into": {"k": "new", "h": "A1"}},
+                                      {"s": "meas", "q": "Q2", "inplace": False, "into": {"k": "new", "h": "A2"}}, {"s": "compile"},
+                                      {"s": "commit", "obj": 1, "vals": [v1, v2]}, {"s": "flush"}, {"s": "read", "loc": {"k": "arr", "a": "A1"}},
+                                      {"s": "read", "loc": {"k": "arr", "a": "A2"}}], "meas": [1, 0]})
+        # a qubit allocated where an earlier one was (after a flush), rotated by a value that is 0, while another qubit with a
+        # higher id is measured in the same subroutine (on one-communication-qubit hardware this relocates qubits)
+        for v in (0, 3):
+            for n_ in ("t1", v):
+                cases.append({"history": [{"s": "qubit", "h": "Q1"}, {"s": "qubit", "h": "Q2"}, {"s": "qubit", "h": "Q3"},
+                                          {"s": "meas", "q": "Q1", "inplace": False, "into": {"k": "new", "h": "A1"}}, {"s": "flush"},
+                                          {"s": "qubit", "h": "Q4"}, {"s": "gate", "g": "h", "qs": ["Q4"]}, {"s": "rot", "g": "rot_x", "q": "Q4", "n": n_, "d": 1},
+                                          {"s": "meas", "q": "Q3", "inplace": False, "into": {"k": "new", "h": "A2"}}]
+                              + ([{"s": "compile"}, {"s": "commit", "obj": 1, "vals": [v]}] if n_ == "t1" else [])
+                              + [{"s": "flush"}, {"s": "read", "loc": {"k": "arr", "a": "A2"}},
+                                 {"s": "meas", "q": "Q4", "inplace": False, "into": {"k": "new", "h": "A3"}},
+                                 {"s": "meas", "q": "Q2", "inplace": False, "into": {"k": "new", "h": "A4"}}, {"s": "flush"}], "meas": [1, 0, 1, 1]})
         # many pre-compiled subroutines that keep an outcome in a register, no flush in between: compile must leave the
         # connection as a flush does, also for the measurement registers
         h = [{"s": "qubit", "h": "Q1"}, {"s": "flush"}]
